@@ -7,7 +7,7 @@
 (* public method goes through the method's steps                           *)
 (*                                                                         *)
 (*   acq / rel      take / release the lock of the object the method runs  *)
-(*                  on (Cond.Wait is rel followed by acq)                  *)
+(*                  on (Cond.Wait is rel followed by acq, both a = "wait") *)
 (*   call  a b      run method b of the same object (a = "") or of the     *)
 (*                  sub-object held in field a (a collection with its own  *)
 (*                  lock: the list inside a queue); the callee runs its    *)
@@ -23,6 +23,13 @@
 (*   NoSelfDeadlock    no thread ever waits for a lock it holds itself     *)
 (*   NoMutualDeadlock  two calls never wait for each other                 *)
 (*   NoLeak            a finished call holds no lock                       *)
+(*   NoSplit           a point operation is ONE critical section: once it   *)
+(*                     has released the lock of its instance it does not    *)
+(*                     take it again (waiting on the condition variable is  *)
+(*                     not a release in this sense).  A refutation is not a *)
+(*                     verdict: two sections may still add up to an atomic  *)
+(*                     operation.  It tells the linearizability binding     *)
+(*                     which calls to let meet each other.                  *)
 (*   NoDataRace        two threads running point operations are never at   *)
 (*                     accesses of the same field of the same object, one  *)
 (*                     of them a write.  (Both being there at once is      *)
@@ -64,8 +71,9 @@ IsPoint(m) == m \in PointOps
 \* ---- state -------------------------------------------------------------------
 VARIABLES scen,   \* the scenario: [ty |-> type, ms |-> <<m>> or <<m1, m2>>] (ms[t] runs on thread t)
           stk,    \* stk[t]: call stack, frames [o |-> object path, ty, m, pc]
-          held    \* held[t]: the objects whose lock t holds
-vars == <<scen, stk, held>>
+          held,   \* held[t]: the objects whose lock t holds
+          secs    \* secs[t]: critical sections on the instance lock t's call has completed (0, 1, 2 = more)
+vars == <<scen, stk, held, secs>>
 
 Root == <<>>                                   \* the instance itself; <<"queue">> = the list in its field queue
 Frame(o, ty, m) == [o |-> o, ty |-> ty, m |-> m, pc |-> 1]
@@ -81,14 +89,16 @@ Acquire(t) == /\ Busy(t) /\ Cur(t).k = "acq"
               /\ Owners(Top(t).o) = {}                      \* non-reentrant: the holder itself waits too
               /\ held' = [held EXCEPT ![t] = @ \cup {Top(t).o}]
               /\ stk' = [stk EXCEPT ![t] = Advanced(@)]
-              /\ UNCHANGED scen
+              /\ UNCHANGED <<scen, secs>>
 Release(t) == /\ Busy(t) /\ Cur(t).k = "rel"
               /\ held' = [held EXCEPT ![t] = @ \ {Top(t).o}]
               /\ stk' = [stk EXCEPT ![t] = Advanced(@)]
+              /\ secs' = IF Top(t).o = Root /\ Cur(t).a # "wait" /\ secs[t] < 2
+                         THEN [secs EXCEPT ![t] = @ + 1] ELSE secs
               /\ UNCHANGED scen
 Access(t) ==  /\ Busy(t) /\ Cur(t).k = "acc"
               /\ stk' = [stk EXCEPT ![t] = Advanced(@)]
-              /\ UNCHANGED <<scen, held>>
+              /\ UNCHANGED <<scen, held, secs>>
 Call(t) ==    /\ Busy(t) /\ Cur(t).k = "call"
               /\ LET f   == Top(t)
                      s   == Cur(t)
@@ -96,10 +106,10 @@ Call(t) ==    /\ Busy(t) /\ Cur(t).k = "call"
                      ty2 == IF s.a = "" THEN f.ty ELSE SubType(f.ty, s.a)
                      runs == s.b \in MethodsOf(ty2) /\ Len(StepsOf(ty2, s.b)) > 0
                  IN stk' = [stk EXCEPT ![t] = IF runs THEN Append(Advanced(@), Frame(o2, ty2, s.b)) ELSE Advanced(@)]
-              /\ UNCHANGED <<scen, held>>
+              /\ UNCHANGED <<scen, held, secs>>
 Return(t) ==  /\ Busy(t) /\ Cur(t).k = "ret"
               /\ stk' = [stk EXCEPT ![t] = SubSeq(@, 1, Len(@) - 1)]
-              /\ UNCHANGED <<scen, held>>
+              /\ UNCHANGED <<scen, held, secs>>
 
 Next == \E t \in Threads : Acquire(t) \/ Release(t) \/ Access(t) \/ Call(t) \/ Return(t)
 
@@ -110,6 +120,7 @@ Alone(ty, m) == /\ scen = [ty |-> ty, ms |-> <<m>>]
 Pair(ty, m1, m2) == /\ scen = [ty |-> ty, ms |-> <<m1, m2>>]
                     /\ stk = [Idle EXCEPT ![1] = <<Frame(Root, ty, m1)>>, ![2] = <<Frame(Root, ty, m2)>>]
 Init == /\ held = [t \in Threads |-> {}]
+        /\ secs = [t \in Threads |-> 0]
         /\ \E ty \in TypeNames :
              \/ \E m \in SeqRange(Pubs(ty)) : Alone(ty, m)
              \/ \E i, j \in 1..Len(Pubs(ty)) :
@@ -130,6 +141,11 @@ NoMutualDeadlock == ~ /\ \E t \in Threads : Busy(t)
                       /\ \A t \in Threads : ~SelfDeadlock(t)
 
 NoLeak == \A t \in Threads : ~Busy(t) => held[t] = {}
+
+\* a point operation about to open a second critical section on its instance
+Split(t) == /\ Busy(t) /\ t <= Len(scen.ms) /\ IsPoint(scen.ms[t])
+            /\ Cur(t).k = "acq" /\ Cur(t).a # "wait" /\ Top(t).o = Root /\ secs[t] >= 1
+NoSplit == \A t \in Threads : ~Split(t)
 
 \* the fields on which two threads conflict right now
 ConflictOn(t1, t2) ==
